@@ -21,6 +21,7 @@ func genReceive() {
 	}
 	var rows []string
 	man := map[string]interface{}{}
+	idx := indexPackage("vflow")
 	for _, w := range ws {
 		_, f := parseFile(w.file)
 		var evs []string
@@ -30,9 +31,26 @@ func genReceive() {
 			if !ok || fd.Name.Name != "run" || fd.Recv == nil || fd.Body == nil {
 				continue
 			}
-			for _, st := range fd.Body.List {
+			rt, rv := recvOf(fd)
+			for _, st := range idx.stmtsThroughHelpers(fd.Body.List, rt, rv, 2) {
 				loop, ok := st.(*ast.ForStmt)
-				if !ok || loop.Cond == nil || !strings.HasSuffix(squash(exprString(loop.Cond)), ".stop") || !strings.HasPrefix(squash(exprString(loop.Cond)), "!") {
+				if !ok {
+					continue
+				}
+				body := loop.Body.List
+				switch {
+				case loop.Cond != nil && strings.HasSuffix(squash(exprString(loop.Cond)), ".stop") && strings.HasPrefix(squash(exprString(loop.Cond)), "!"):
+				case loop.Cond == nil && loop.Init == nil && loop.Post == nil && len(body) > 0:
+					// for { if x.stop { break }; ... } is the same loop
+					ifs, ok := body[0].(*ast.IfStmt)
+					if !ok || ifs.Init != nil || ifs.Else != nil || !strings.HasSuffix(squash(exprString(ifs.Cond)), ".stop") || strings.HasPrefix(squash(exprString(ifs.Cond)), "!") || len(ifs.Body.List) != 1 {
+						continue
+					}
+					if b, ok := ifs.Body.List[0].(*ast.BranchStmt); !ok || b.Tok != token.BREAK {
+						continue
+					}
+					body = body[1:]
+				default:
 					continue
 				}
 				found = true
@@ -43,7 +61,7 @@ func genReceive() {
 					}
 					return squash(exprString(e))
 				}
-				for _, s := range loop.Body.List {
+				for _, s := range body {
 					switch x := s.(type) {
 					case *ast.AssignStmt:
 						rhs := squash(exprString(x.Rhs[0]))
